@@ -40,6 +40,15 @@ namespace detail
 		}
 	};
 
+	// Largest floatType value that converts to T: when floatType has fewer digits than T,
+	// static_cast<floatType>(max) rounds up to a power of two that T cannot hold.
+	template<typename T, typename floatType>
+	GLM_FUNC_QUALIFIER floatType compScaleLimit()
+	{
+		floatType const Max = static_cast<floatType>(std::numeric_limits<T>::max());
+		return std::numeric_limits<floatType>::digits < std::numeric_limits<T>::digits ? Max * (static_cast<floatType>(1) - std::numeric_limits<floatType>::epsilon() / static_cast<floatType>(2)) : Max;
+	}
+
 	template<length_t L, typename T, typename floatType, qualifier Q, bool isInteger, bool signedType>
 	struct compute_compScale
 	{};
@@ -51,7 +60,7 @@ namespace detail
 		{
 			floatType const Max = static_cast<floatType>(std::numeric_limits<T>::max()) + static_cast<floatType>(0.5);
 			vec<L, floatType, Q> const Scaled(v * Max);
-			vec<L, T, Q> const Result(Scaled - static_cast<floatType>(0.5));
+			vec<L, T, Q> const Result(min(Scaled - static_cast<floatType>(0.5), vec<L, floatType, Q>(compScaleLimit<T, floatType>())));
 			return Result;
 		}
 	};
@@ -61,7 +70,7 @@ namespace detail
 	{
 		GLM_FUNC_QUALIFIER static vec<L, T, Q> call(vec<L, floatType, Q> const& v)
 		{
-			return vec<L, T, Q>(vec<L, floatType, Q>(v) * static_cast<floatType>(std::numeric_limits<T>::max()));
+			return vec<L, T, Q>(min(vec<L, floatType, Q>(v) * static_cast<floatType>(std::numeric_limits<T>::max()), vec<L, floatType, Q>(compScaleLimit<T, floatType>())));
 		}
 	};
 
